@@ -79,6 +79,7 @@ partial def sexpr? : Sexp → Option SExpr
   | .list [.atom "gt", ds, c, v] => do some (.gt (← ds.toNat?) (← c.toNat?) (← sexpToRat? v))
   | .list [.atom "pr", ds, a, lo, hi] => do
     some (.pixRange (← ds.toNat?) (← a.toNat?) (← sexpToRat? lo) (← sexpToRat? hi))
+  | .list [.atom "elems", ix] => do some (.elems (← ix.toNats?))
   | .list [.atom "and", a, b] => do some (.and (← sexpr? a) (← sexpr? b))
   | .list [.atom "or", a, b] => do some (.or (← sexpr? a) (← sexpr? b))
   | .list [.atom "xor", a, b] => do some (.xor (← sexpr? a) (← sexpr? b))
